@@ -978,6 +978,16 @@ class Node:
             waiting_id = (message.header.hop_by_hop_identifier,
                           message.header.end_to_end_identifier)
             waiting[waiting_id] = time.time()
+            if conn.ident not in self.connections:
+                # the connection thread has removed the connection while the
+                # request was on its way here (it drops the pending answers
+                # of a connection after taking it out of the table): there is
+                # nobody left to answer
+                waiting.pop(waiting_id, None)
+                self.logger.warning(
+                    f"{conn} has gone away, dropping request "
+                    f"{hex(message.header.hop_by_hop_identifier)}")
+                return
             try:
                 receiving_app.receive_request(message)
             except Exception as e:
